@@ -633,7 +633,23 @@ Proof.
     + apply Hnotin. rewrite Hin. apply in_map. exact Hn'.
 Qed.
 
-(* F20k / F20m excluded: every component schema is registered, under its class name, holding its own content *)
+(* a pass changes nothing once every name is found under its sanitised form *)
+Lemma build_keys_go_noop : forall raw keys i,
+  (forall n, In n raw -> In (class_name n) (map fst keys)) -> build_keys_go keys i raw = keys.
+Proof.
+  induction raw as [|n r IH]; intros keys i H; [reflexivity|]. cbn [build_keys_go].
+  assert (E : mem_str (class_name n) (map fst keys) = true) by (apply mem_str_In, H; left; reflexivity).
+  rewrite E, orb_true_r. apply IH. intros n' Hn'. apply H. right. exact Hn'.
+Qed.
+
+Lemma build_passes_noop : forall k raw keys,
+  (forall n, In n raw -> In (class_name n) (map fst keys)) -> build_passes k keys raw = keys.
+Proof.
+  induction k as [|k IH]; intros raw keys H; [reflexivity|]. cbn [build_passes].
+  rewrite build_keys_go_noop by exact H. apply IH, H.
+Qed.
+
+(* F20k / F20m excluded: every component schema is registered exactly once, under its class name, holding its own content *)
 Theorem build_keys_partial : forall raw, guard_F20k raw = true -> guard_F20m raw = true ->
   build_keys raw = Some (combine (map class_name raw) (seq 0 (length raw))).
 Proof.
@@ -641,8 +657,16 @@ Proof.
   assert (Hid : forall n, In n raw -> class_name (class_name n) = class_name n).
   { intros n Hn. unfold guard_F20k in Gk. rewrite forallb_forall in Gk. apply str_eqb_eq, Gk, Hn. }
   apply nodupb_NoDup in Gm.
-  rewrite (build_keys_go_spec raw [] 0 Hid Gm) by (intros n _; split; intros []).
-  cbn [app]. rewrite map_fst_combine by (rewrite map_length, seq_length; reflexivity).
+  assert (Hk : map fst (combine (map class_name raw) (seq 0 (length raw))) = map class_name raw)
+    by (apply map_fst_combine; rewrite map_length, seq_length; reflexivity).
+  assert (Hp : build_passes (length raw) [] raw = combine (map class_name raw) (seq 0 (length raw))).
+  { assert (Hl : length raw = O \/ exists k, length raw = S k) by (destruct (length raw); eauto).
+    destruct Hl as [Hl|[k Hl]].
+    - destruct raw; [reflexivity | discriminate Hl].
+    - rewrite Hl at 1. cbn [build_passes].
+      rewrite (build_keys_go_spec raw [] 0 Hid Gm) by (intros n _; split; intros []). cbn [app].
+      apply build_passes_noop. intros n Hn. rewrite Hk. apply in_map. exact Hn. }
+  rewrite Hp, Hk.
   replace (forallb _ raw) with true; [reflexivity|]. symmetry. apply forallb_forall. intros n Hn.
   apply orb_true_iff. right. apply mem_str_In. apply in_map. exact Hn.
 Qed.
@@ -655,6 +679,10 @@ Proof. repeat split; vm_compute; reflexivity. Qed.
 Lemma refuted_F20m : guard_F20k [w_foo_bar; w_FooBar] = true /\ guard_F20m [w_foo_bar; w_FooBar] = false
   /\ build_keys [w_foo_bar; w_FooBar] = Some [(w_FooBar, 0%nat)].
 Proof. repeat split; vm_compute; reflexivity. Qed.
+(* since F02d: in a document with a second schema the non-idempotent name no longer fails, it is registered twice *)
+Definition w_Pet : str := [80;101;116].
+Lemma F20k_duplicate : build_keys [w_a_b; w_Pet] = Some [([65;98], 0%nat); (w_Pet, 1%nat); (w_a_b, 0%nat)].
+Proof. vm_compute. reflexivity. Qed.
 Lemma schemas_guard_nonvacuous : guard_F20k [w_foo_bar; w_none; w_1st] = true /\ guard_F20m [w_foo_bar; w_none; w_1st] = true.
 Proof. split; vm_compute; reflexivity. Qed.
 
